@@ -15,6 +15,19 @@ water-level step (same / coarser / finer / non-aligned / irregular), 0-4 gaps
 instants), the row order.  Malformed classes: non-uniform rainfall step inside
 the span, ET missing at one grid instant, duplicate timestamp, populated
 database, too little overlap, empty files.
+
+Further malformed streams (drawn only when asked for by class name, so the
+streams of the classes above are unchanged): ET_MALFORMED_CLASSES -- an
+evapotranspiration record that starts late, ends early, has several holes, is
+sampled on a coarser step or on another phase than the grid (any number of
+grid steps without ET, anywhere); NONUNIFORM_EDGE_CLASSES -- the only odd
+rainfall step lies at an end of the span of the water-level record and is closed
+exactly by the rainfall record that coincides with the last (first)
+water-level timestamp, with near misses one second to either side (one second
+short: the odd record is outside the span and the input is well-formed).
+
+gen_valid takes optional step / base / n_rain (used by C11 to lay a record over
+chosen daylight-saving transitions); when left None they are drawn as before.
 """
 
 BASES = [946684800, 1583020800, 0, -31536000 - 7200, 1711846800, 86400 * 365 * 60, -86400 * 20000]
@@ -23,6 +36,8 @@ STEPS = [60, 300, 600, 900, 1800, 3600, 7, 1, 86400, 1200]
 VALID_CLASSES = ['same', 'coarser', 'finer', 'nonaligned', 'irregular', 'same_gappy', 'finer_gappy',
                  'coarser_gappy', 'nonaligned_gappy', 'wl_outlasts', 'rain_outlasts', 'tight', 'rain_ragged_outside']
 MALFORMED_CLASSES = ['nonuniform_inside', 'et_missing', 'duplicate', 'populated', 'little_overlap', 'empty']
+ET_MALFORMED_CLASSES = ['et_starts_late', 'et_ends_early', 'et_holes', 'et_coarser', 'et_off_phase']
+NONUNIFORM_EDGE_CLASSES = ['nonuniform_at_end', 'nonuniform_at_start']
 
 
 def dec_text(rng, lo, hi):
@@ -133,10 +148,13 @@ def cut_gaps(rng, times, ngaps, grid_like_step, anchor):
     return [t for t, k in zip(times, keep) if k]
 
 
-def gen_valid(rng, cls):
-    step = rng.choice(STEPS)
-    base = rng.choice(BASES) + rng.randrange(0, 86400)
-    n_rain = rng.choice([2, 3, 4, 6, 9, 14, 20, 28])
+def gen_valid(rng, cls, step=None, base=None, n_rain=None):
+    if step is None:
+        step = rng.choice(STEPS)
+    if base is None:
+        base = rng.choice(BASES) + rng.randrange(0, 86400)
+    if n_rain is None:
+        n_rain = rng.choice([2, 3, 4, 6, 9, 14, 20, 28])
     rain_t = [base + k * step for k in range(n_rain)]
     mode = cls.split('_')[0] if cls.split('_')[0] in ('same', 'coarser', 'finer', 'nonaligned', 'irregular') \
         else rng.choice(['same', 'same', 'coarser', 'finer', 'nonaligned'])
@@ -240,7 +258,114 @@ def gen_malformed(rng, cls):
     return c
 
 
+def _valid_with_grid(rng, at_least, classes):
+    for _ in range(200):
+        c = gen_valid(rng, rng.choice(classes))
+        grid = span_grid([t for t, _ in c['rain']], [t for t, _ in c['wl']])
+        if len(grid) >= at_least:
+            return c, grid
+    raise RuntimeError('no valid case with %d grid instants found' % at_least)
+
+
+def gen_et_malformed(rng, cls):
+    """A well-formed triple whose evapotranspiration record is then damaged so
+    that one or more grid steps have no ET: at the leading steps, at the
+    trailing ones, at several places, at all but every m-th, or everywhere."""
+    c, grid = _valid_with_grid(rng, 5, ['same', 'coarser', 'finer', 'nonaligned', 'same_gappy', 'wl_outlasts',
+                                        'rain_outlasts', 'finer_gappy', 'irregular', 'rain_ragged_outside'])
+    step = c['step']
+    closing = grid[-1] + step
+    et = list(c['et'])
+    m = len(grid)
+    if cls == 'et_off_phase' and step == 1:
+        cls = 'et_holes'
+    c['cls'] = cls
+    if cls == 'et_starts_late':
+        k = rng.choice([1, 1, 2, m // 2, m - 1, m])         # ET begins at grid[k] (m: at the closing instant)
+        first = (grid + [closing])[k]
+        lo = grid[0] if rng.random() < 0.4 else None         # 0.4: a hole at the leading steps, ET exists before it
+        et = [r for r in et if r[0] >= first or (lo is not None and r[0] < lo)]
+    elif cls == 'et_ends_early':
+        k = rng.choice([1, 1, 2, m // 2, m - 1])             # ET stops before grid[-k]
+        last = grid[-k]
+        hi = closing if rng.random() < 0.4 else None         # 0.4: ET resumes after the closing instant
+        keep_closing = rng.random() < 0.3
+        et = [r for r in et if r[0] < last or (hi is not None and r[0] > hi) or (keep_closing and r[0] == closing)]
+    elif cls == 'et_holes':
+        nh = rng.choice([2, 2, 3, m // 2])
+        if rng.random() < 0.5:                               # one run of nh instants
+            i = rng.randrange(0, m - nh + 1)
+            holes = set(grid[i:i + nh])
+        else:                                                # scattered
+            holes = set(rng.sample(grid, min(nh, m)))
+        if rng.random() < 0.25:
+            holes.add(closing)
+        et = [r for r in et if r[0] not in holes]
+    elif cls == 'et_coarser':
+        k = rng.choice([2, 2, 3])
+        ph = rng.randrange(k)
+        keep = {g for j, g in enumerate(grid + [closing]) if j % k == ph}
+        et = [r for r in et if r[0] in keep or not grid[0] <= r[0] <= closing]
+    elif cls == 'et_off_phase':
+        d = rng.choice([1, step - 1, step // 2 or 1, rng.randrange(1, step)])
+        et = [[r[0] + d, r[1]] for r in et]
+    c['et'] = order_rows(rng, sorted(et))
+    return c
+
+
+def gen_nonuniform_edge(rng, cls):
+    """The only odd rainfall step is the last (first) one within the span of the
+    water-level record, and the rainfall record that closes it lies `off`
+    seconds inside the span, counted from its last (first) water-level
+    timestamp: off = 0 exactly on it, 1 just inside, -1 just outside (then the
+    input is well-formed)."""
+    at_end = cls == 'nonuniform_at_end'
+    s = 1 if at_end else -1
+    for _ in range(200):
+        c, grid = _valid_with_grid(rng, 5, ['same', 'coarser', 'finer', 'nonaligned', 'same_gappy', 'wl_outlasts',
+                                            'rain_outlasts', 'finer_gappy', 'irregular'])
+        step = c['step']
+        inner, edge = (grid[-2], grid[-1]) if at_end else (grid[1], grid[0])
+        rain = {t: v for t, v in c['rain']}
+        how = rng.randrange(3)
+        if how == 0:          # the record before the edge one is missing
+            del rain[inner]
+            T = edge
+        else:                 # the edge record is displaced; the record goes on from it, or stops
+            d = rng.choice([d for d in (1, step - 1, step + 1, 2 * step, 2 * step - 1, 3 * step, step // 2)
+                            if d >= 1 and d != step])
+            T = inner + s * d
+            rain = {t: v for t, v in rain.items() if s * (t - inner) <= 0}
+            cont = rng.choice([0, 0, 1, 3])
+            sp = step if how == 1 else d
+            for j in range(cont + 1):
+                rain[T + s * j * sp] = '0' if rng.random() < 0.5 else dec_text(rng, 0, 12)
+        off = rng.choice([0, 0, 0, 0, 1, -1])
+        W = T + s * off       # the last (first) water-level timestamp
+        wl = {t: v for t, v in c['wl'] if s * (t - W) <= 0}
+        wl.setdefault(W, '%.2f' % (-20 * rng.random()))
+        ingrid = span_grid(list(rain), list(wl))
+        if len(wl) < 2 or len(ingrid) < 3:
+            continue
+        # ET wherever any reading of the input could want it
+        et = {t: v for t, v in c['et']}
+        for t in list(rain):
+            for u in (t, t + step):
+                et.setdefault(u, dec_text(rng, 0, 0.4))
+        c['cls'] = cls
+        c['edge_off'] = off
+        c['rain'] = order_rows(rng, sorted([t, v] for t, v in rain.items()))
+        c['et'] = order_rows(rng, sorted([t, v] for t, v in et.items()))
+        c['wl'] = order_rows(rng, sorted([t, v] for t, v in wl.items()))
+        return c
+    raise RuntimeError('no nonuniform-edge case found')
+
+
 def gen_case(rng, cls):
     if cls in VALID_CLASSES:
         return gen_valid(rng, cls)
+    if cls in ET_MALFORMED_CLASSES:
+        return gen_et_malformed(rng, cls)
+    if cls in NONUNIFORM_EDGE_CLASSES:
+        return gen_nonuniform_edge(rng, cls)
     return gen_malformed(rng, cls)
